@@ -29,6 +29,7 @@ pub mod c15;
 pub mod c18;
 pub mod c19;
 pub mod c19_race;
+pub mod c19_worker;
 pub mod c20;
 pub mod c16;
 pub mod c16_structs;
